@@ -408,10 +408,15 @@ func main() {
 		valid := []string{"0.0.0", "1.2.3", "v1.2.3", "1.0.0-alpha", "1.0.0-alpha.1", "1.0.0-0.3.7", "1.0.0-x.7.z.92", "1.0.0-x-y-z.--", "1.0.0-alpha+001", "1.0.0+20130313144700", "1.0.0-beta+exp.sha.5114f85", "1.0.0+21AF26D3----117B344092BD",
 			"v10.20.30-rc.1+build.5", "18446744073709551615.18446744073709551615.18446744073709551615", "1.0.0--", "1.0.0+-", "1.0.0-a.b.c", "v0.0.0-0", "2.0.0-rc.1+b", "1.0.0-0A", "1.0.0-A0", "1.0.0-1a.2b", "1.0.0+0.0.00", "v1.0.0-Z.z", "1.1.2-prerelease+meta",
 			"1.1.2+meta-valid", "1.0.0-alpha-a.b-c-somethinglong+build.1-aef.1-its-okay", "1.0.0-rc.1+build.1", "2.0.0+build.1848", "2.0.1-alpha.1227", "1.2.3----RC-SNAPSHOT.12.9.1--.12+788", "1.2.3----R-S.12.9.1--.12+meta", "1.0.0-0A.is.legal", "10.2.3-DEV-SNAPSHOT", "1.2.3-SNAPSHOT-123", "1.0.0-9", "1.0.0-90", "v9.9.9", "0.1.0", "1.10.100"}
-		r.Phase(fmt.Sprintf("1-deviation mutants (substitute/insert all 256 byte values, delete, trailing newline) of %d valid texts", len(valid)), "complete for 1 deviation", func() {
+		r.Phase(fmt.Sprintf("special words (null, nil, true, NaN, {}, ...) and 1-deviation mutants (substitute/insert all 256 byte values, delete, trailing newline) of %d valid texts", len(valid)), "complete for 1 deviation", func() {
 			r.Parallel(int64(len(valid)), 1, func(w *mc.W, i int64) {
 				one(w, []byte(valid[i]))
 				one(w, []byte(valid[i]+"\n"))
+				if i == 0 {
+					for _, sw := range mc.SpecialWords {
+						one(w, []byte(sw))
+					}
+				}
 				mc.Mutations1([]byte(valid[i]), mc.AllBytes, func(m []byte) { one(w, m) })
 				mc.MutationsTok([]byte(valid[i]), mc.Lookalikes, func(m []byte) { one(w, m) })
 			})
